@@ -25,10 +25,18 @@ ASSUMPTIONS = ['ndarray iteration order of a column view', 'base_to_prob table a
 MSA = 'merge_ska_array::MergeSkaArray'
 
 
+def _variant_dist_fn(facts):
+    c = [n for n in facts.by_name if n.endswith('::variant_dist') and len(facts.by_name[n]) == 1 and facts.by_name[n][0].kind != 'Closure']
+    if len(c) != 1:
+        raise AnchorLost('variant_dist: %d candidate functions %s' % (len(c), c))
+    return c[0]
+
+
 def pair_table(facts, tier='quick'):
     """variant_dist interpreted on every pair of symbols a table can hold (x 2 running constants): (#cases, [differing cells]).  Shared with
     C15.use:variant_dist (the weights of an ambiguity code are uniform over its base set; N carries none)."""
     I = Interp(facts, {'IntT': 'u64'})
+    VD = _variant_dist_fn(facts)
     letters = '-ACGTRYSWKMBDHVN'
     SETS = {'A': 'A', 'C': 'C', 'G': 'G', 'T': 'T', 'R': 'AG', 'Y': 'CT', 'S': 'CG', 'W': 'AT', 'K': 'GT', 'M': 'AC',
             'B': 'CGT', 'D': 'AGT', 'H': 'ACT', 'V': 'ACG'}
@@ -47,7 +55,7 @@ def pair_table(facts, tier='quick'):
         for b in letters:
             for c in (0.0, 3.0):
                 n += 1
-                r = I.call_fn(MSA + '::variant_dist', [view(a), view(b), c])
+                r = I.call_fn(VD, [view(a), view(b), c])
                 got = (r.fields[0], r.fields[1])
                 if a == '-' and b == '-':
                     dist, mm, m = 0.0, 0.0, c
@@ -61,7 +69,7 @@ def pair_table(facts, tier='quick'):
                 if abs(got[0] - want[0]) > 1e-12 or abs(got[1] - want[1]) > 1e-12:
                     bad.append((a, b, c, got, want))
     # accumulation over several rows
-    r = I.call_fn(MSA + '::variant_dist', [view('AC-G-'), view('AT--C'), 2.0])
+    r = I.call_fn(VD, [view('AC-G-'), view('AT--C'), 2.0])
     n += 1
     want = (1.0, 2.0 / (2.0 + 2.0 + 2.0))
     if abs(r.fields[0] - want[0]) > 1e-12 or abs(r.fields[1] - want[1]) > 1e-12:
@@ -74,7 +82,7 @@ def pair_table(facts, tier='quick'):
         I.steps = 0
         c1 = ('ACGT-' * (L // 5 + 1))[:L]
         c2 = ('AGGT-' * (L // 5 + 1))[:L]            # differs at every 2nd of five positions; both gaps at every 5th
-        r = I.call_fn(MSA + '::variant_dist', [view(c1), view(c2), 1000.0])
+        r = I.call_fn(VD, [view(c1), view(c2), 1000.0])
         n += 1
         diffs = sum(1 for x, y in zip(c1, c2) if x != '-' and y != '-' and x != y)
         both = sum(1 for x, y in zip(c1, c2) if x != '-' and y != '-')
@@ -83,7 +91,7 @@ def pair_table(facts, tier='quick'):
             bad.append(('ACGT-.. x %d' % L, 'AGGT-..', 1000.0, (r.fields[0], r.fields[1]), want))
         c3 = ('A-' * (L // 2 + 1))[:L]
         c4 = ('AA' * (L // 2 + 1))[:L]                # exactly one gap at every 2nd row
-        r = I.call_fn(MSA + '::variant_dist', [view(c3), view(c4), 1000.0])
+        r = I.call_fn(VD, [view(c3), view(c4), 1000.0])
         n += 1
         want = (0.0, (L // 2) / (1000.0 + L // 2 + (L - L // 2)))
         if abs(r.fields[0] - want[0]) > 1e-6 or abs(r.fields[1] - want[1]) > 1e-12:
